@@ -100,14 +100,15 @@ Definition lift_ts (f : hg -> res) (d : dhg) : dres :=
 (* ---------- edges ---------- *)
 
 (* the body of an addition once the id is known to be new and no member is None:
-   tail nodes are created first, then head nodes *)
+   tail nodes are created first, then head nodes - on both sides, since the implementation has ONE node dict: the
+   head side first receives the tail nodes (with no in-membership), then its own *)
 (* explicit = the id was given by the caller, so the counter is advanced past it
    (update_uid_counter); the counter is not touched by the node creations that follow, so
    advancing it here or at the end of the method gives the same state *)
 Definition d_insert_edge (explicit : bool) (e : lbl) (tl hd : list lbl) (a : attrs) (d : dhg) : dhg :=
   let fin := fun s => if explicit then bump_uid e s else s in
   mkD (ensure_nodes hd (fin (insert_edge e tl a (ts d))))
-      (ensure_nodes tl (fin (insert_edge e hd [] (hs d)))).
+      (fin (insert_edge e hd [] (ensure_nodes tl (hs d)))).
 
 Definition has_none (l : list lbl) : bool := existsb is_none l.
 
